@@ -174,7 +174,7 @@ theorem remove_has_of_ne (l : Lru) {k a : Nat} (hne : k ≠ a) : (l.remove k).ha
 
 theorem remove_not_has {l : Lru} (k : Nat) (h : l.WF) : ¬ (l.remove k).has k := by
   by_cases hk : l.has k
-  · unfold Lru.has; have := remove_cnt hk k; have := h k; simp at this; omega
+  · unfold Lru.has; have h1 := remove_cnt hk k; have h2 := h k; simp at h1; omega
   · rw [remove_of_not_has hk]; exact hk
 
 theorem remove_pinned_sub (l : Lru) (k a : Nat) (h : a ∈ (l.remove k).pinned) : a ∈ l.pinned := by
